@@ -31,6 +31,7 @@ FORMULAS = [
     "y ~ a + A", "y ~ a | A", "log(a) + A",
     "0 + A + a", "0 + n + a", "n + b", "0 + n:A + b",
     "3:A:B", "0 + 3:A:B", "a + 2:A:B", "2.5:a:A:B", "0 + 2:A",
+    "a + I(3)", "I(2):a + A",  # factors that evaluate to a constant
     # contrasts with non-default options (each has its own dense and sparse code path)
     "C(A, contr.diff(backward=False)) + a", "a + a:C(A, contr.diff(backward=False))", "C(A, contr.helmert(reverse=False, scale=True))",
     "C(A, contr.poly(scores=[1, 2, 4])) + b", "C(A, contr.SAS('x')):a", "C(A, contr.custom([[1, 0], [0, 1], [-1, -1]]))",
